@@ -81,12 +81,12 @@ func ohpPacket(src, dst addr.IA, dstHost addr.Host, p *onehop.Path, sport uint16
 const ohpPathOff = 12 + 16 + 4 + 4 // common + IAs + IPv4/SVC hosts
 
 func TestC12(t *testing.T) {
-	rec := evid.New("C12", "rapid: one-hop packets at router A's internal link: source in {A, B, C}, destination in {B, C, A, stranger}, first-hop egress in {7 (to B), 8 (to C), unknown}, MAC valid/invalid (reference MAC), construction-direction flag, "+
+	rec := evid.New("C12", "rapid: one-hop packets at router A's internal link: source in {A, B, C}, destination in {B, C, A, stranger}, first-hop egress in {7 (to B), 8 (to C), unknown}, first-hop ingress 0 or not, MAC valid/invalid (reference MAC; also the genuine MAC of the hop field without ingress), second-hop slot empty or filled with anything, construction-direction flag, "+
 		"age 0..lifetime, ExpTime 0..255; accepted ones continue to router B's external links (right and wrong interface, right and wrong source/destination); completed paths are reversed and sent back through B and A. "+
 		"Oracle: statement's table; only SegID (A) resp. the second hop field (B) may change; second hop = reference MAC with A-updated SegID, ExpTime copied; reversed path accepted by both. Non-trivial: a rejected combination or a full round trip.")
 	defer rec.Flush(t)
 	rec.Assume("virtual clock (synctest) places the packet anywhere inside the first hop's lifetime", "BFD's own one-hop packets use the same first-hop construction (not captured here)")
-	rec.Require("out_accepted", "out_wrong_src", "out_wrong_dst", "out_unknown_egress", "out_bad_mac", "out_not_consdir", "in_accepted", "in_wrong_dst", "in_wrong_src", "in_wrong_interface", "roundtrip", "old_timestamp_long_exptime")
+	rec.Require("out_accepted", "out_wrong_src", "out_wrong_dst", "out_unknown_egress", "out_bad_mac", "out_not_consdir", "in_accepted", "in_wrong_dst", "in_wrong_src", "in_wrong_interface", "roundtrip", "old_timestamp_long_exptime", "second_hop_slot_filled", "out_mac_of_other_hop", "first_hop_with_ingress")
 	rapid.Check(t, func(rt *rapid.T) {
 		var fail string
 		var labels []string
@@ -118,14 +118,32 @@ func TestC12(t *testing.T) {
 			macOK := rapid.IntRange(0, 4).Draw(rt, "badMAC") != 0
 			consDir := rapid.IntRange(0, 5).Draw(rt, "notConsDir") != 0
 			info := path.InfoField{ConsDir: consDir, SegID: rapid.Uint16().Draw(rt, "segID"), Timestamp: uint32(now.Unix() - int64(age))}
-			first := path.HopField{ConsEgress: egress, ExpTime: exp}
-			first.Mac = ref.HopMAC(kA, info.SegID, info.Timestamp, exp, 0, egress)
+			// the first hop field normally has no ingress interface; whatever it holds is covered by its MAC
+			firstIn := rapid.SampledFrom([]uint16{0, 0, 0, 0, 5, 7, 8}).Draw(rt, "firstHopIngress")
+			first := path.HopField{ConsIngress: firstIn, ConsEgress: egress, ExpTime: exp}
+			first.Mac = ref.HopMAC(kA, info.SegID, info.Timestamp, exp, firstIn, egress)
+			macOfOtherHop := false
 			if !macOK {
-				b := rapid.IntRange(0, 47).Draw(rt, "macBit")
-				first.Mac[b/8] ^= 1 << (b % 8)
+				if firstIn != 0 && rapid.Bool().Draw(rt, "macOfHopWithoutIngress") {
+					// a genuine MAC of this router, but of the hop field with ingress 0
+					first.Mac = ref.HopMAC(kA, info.SegID, info.Timestamp, exp, 0, egress)
+					macOfOtherHop = true
+				} else {
+					b := rapid.IntRange(0, 47).Draw(rt, "macBit")
+					first.Mac[b/8] ^= 1 << (b % 8)
+				}
+			}
+			// the slot of the second hop field is not protected by anything: a sender (or the link) may
+			// put anything there
+			var second path.HopField
+			if rapid.Bool().Draw(rt, "secondHopSlotFilled") {
+				second = path.HopField{ConsIngress: rapid.Uint16().Draw(rt, "s2in"), ConsEgress: rapid.SampledFrom([]uint16{0, 9, 10, 2}).Draw(rt, "s2out"), ExpTime: rapid.Uint8().Draw(rt, "s2exp"),
+					IngressRouterAlert: rapid.Bool().Draw(rt, "s2ia"), EgressRouterAlert: rapid.Bool().Draw(rt, "s2ea")}
+				copy(second.Mac[:], rapid.SliceOfN(rapid.Byte(), 6, 6).Draw(rt, "s2mac"))
+				labels = append(labels, "second_hop_slot_filled")
 			}
 			sport := uint16(rapid.IntRange(1024, 65535).Draw(rt, "sport"))
-			raw, err := ohpPacket(src, dst, addr.HostSVC(addr.SvcCS), &onehop.Path{Info: info, FirstHop: first}, sport)
+			raw, err := ohpPacket(src, dst, addr.HostSVC(addr.SvcCS), &onehop.Path{Info: info, FirstHop: first, SecondHop: second}, sport)
 			if err != nil {
 				fail = "harness: " + err.Error()
 				return
@@ -150,6 +168,8 @@ func TestC12(t *testing.T) {
 					labels = append(labels, "out_unknown_egress")
 				case dst != neighbor:
 					labels = append(labels, "out_wrong_dst")
+				case macOfOtherHop:
+					labels = append(labels, "out_mac_of_other_hop")
 				case !macOK:
 					labels = append(labels, "out_bad_mac")
 				default:
@@ -184,7 +204,7 @@ func TestC12(t *testing.T) {
 			if srcB != src || dstB != dst {
 				ss := info
 				ss.SegID ^= uint16(first.Mac[0])<<8 | uint16(first.Mac[1])
-				rawB, err = ohpPacket(srcB, dstB, addr.HostSVC(addr.SvcCS), &onehop.Path{Info: ss, FirstHop: first}, sport)
+				rawB, err = ohpPacket(srcB, dstB, addr.HostSVC(addr.SvcCS), &onehop.Path{Info: ss, FirstHop: first, SecondHop: second}, sport)
 				if err != nil {
 					fail = "harness: " + err.Error()
 					return
@@ -227,6 +247,12 @@ func TestC12(t *testing.T) {
 			copy(wantB[so+6:], m2[:])
 			if !bytes.Equal(outB, wantB) {
 				fail = fmt.Sprintf("router B's completion differs from the reference (second hop = ingress %d, ExpTime %d, reference MAC): %s\n in  %x\n out %x\n ref %x", inIf, exp, descB, rawB, outB, wantB)
+				return
+			}
+			if firstIn != 0 {
+				// such a first hop field cannot end a reversed path in A (it names a further interface)
+				labels = append(labels, "first_hop_with_ingress")
+				nt = true
 				return
 			}
 			if inIf != 9 || srcB != iaA {
